@@ -1,0 +1,10 @@
+//go:build verif
+
+package gc
+
+import "context"
+
+// RunOnce performs exactly one garbage-collection pass (verification harness only).
+func RunOnce(ctx context.Context, collector PartGarbageCollector) error {
+	return collector.(*partGC).runGCWithContext(ctx)
+}
